@@ -750,8 +750,22 @@ def extract_splits():
             hdr = hdrs[-1].group(0) if hdrs else ''
             self_ty = hdr.split(' for ')[-1] if ' for ' in hdr else hdr
             heap_only = 'HeapStorage' in self_ty
+            # the handle the iterators share: BufRef::new(self) boxes the buffer and owns the box, BufRef::from_ref(self) borrows it
+            boxed = bool(re.search(r'BufRef::new\(\s*self\s*\)', body)); borrowed = bool(re.search(r'BufRef::from_ref\(\s*self\s*\)', body))
+            if boxed == borrowed: problems.append(f'{rel}::{m.group(1)}: the iterators\' handle is neither BufRef::new(self) nor BufRef::from_ref(self)')
+            if boxed != (m.group(2) == 'self'): problems.append(f'{rel}::{m.group(1)}: a by-value split must box the buffer (BufRef::new), a by-reference split must borrow it (BufRef::from_ref)')
             out.append((f'{rel}::{m.group(1)}', m.group(2) == '&mut self', reset, alive, iters, heap_only))
     if len(out) < 4: problems.append(f'only {len(out)} split functions found')
+    # BufRef: `new` owns the box (needs_drop: true), `from_ref` does not (false), `clone` copies the bit
+    try:
+        br = strip_comments(open(os.path.join(REPO, 'src', 'ring_buffer/wrappers/buf_ref.rs')).read())
+        def lit(fn):
+            fm = re.search(r'fn\s+' + fn + r'\b[^{]*\{(.*?)\n    \}', br, re.S)
+            return re.sub(r'\s+', '', fm.group(1)) if fm else ''
+        if 'needs_drop:true' not in lit('new'): problems.append('buf_ref.rs::new: the handle of a boxed buffer does not own the box (needs_drop: true)')
+        if 'needs_drop:false' not in lit('from_ref'): problems.append('buf_ref.rs::from_ref: the handle of a borrowed buffer owns it (needs_drop: false expected)')
+        if 'needs_drop:self.needs_drop' not in lit('clone'): problems.append('buf_ref.rs::clone: the clone does not copy needs_drop')
+    except OSError: problems.append('buf_ref.rs missing')
     return out, problems
 
 def write_splits(splits, problems):
